@@ -417,6 +417,13 @@ class VC:
     def native(self, f, a, k):
         if f is isinstance:
             return self.isinstance_(*a)
+        if f in OPERATOR_FUNCS and builtins.any(isinstance(x, (SymZ, SymBool)) for x in a):
+            kind, op = OPERATOR_FUNCS[f]
+            if kind == "cmp":
+                return self.compare(op, *a)
+            if kind == "bin":
+                return self.binop(op, *a)
+            return self.unop(op, *a)
         if f is map:
             return [self.call(a[0], *xs) for xs in zip(*a[1:])]
         if f is filter:
@@ -646,6 +653,14 @@ class VC:
             if isinstance(t, (bool, SymBool)) and isinstance(e, (bool, SymBool)):
                 return SymBool(z3.If(test.z, self._zb(t), self._zb(e)))
         return body() if self.truth(test) else orelse()
+
+
+OPERATOR_FUNCS = {
+    operator.eq: ("cmp", "Eq"), operator.ne: ("cmp", "NotEq"), operator.lt: ("cmp", "Lt"), operator.le: ("cmp", "LtE"),
+    operator.gt: ("cmp", "Gt"), operator.ge: ("cmp", "GtE"),
+    operator.add: ("bin", "Add"), operator.sub: ("bin", "Sub"), operator.mul: ("bin", "Mult"),
+    operator.neg: ("un", "USub"), operator.pos: ("un", "UAdd"), operator.not_: ("un", "Not"),
+}
 
 
 class SymInt:
